@@ -37,8 +37,38 @@ std::vector<ComponentPtr>::const_iterator ComponentEntity::ComponentEntityImpl::
 
 std::vector<ComponentPtr>::const_iterator ComponentEntity::ComponentEntityImpl::findComponent(const ComponentPtr &component) const
 {
+    // Prefer the object itself; only fall back on a structurally equal component.
+    auto result = std::find(mComponents.begin(), mComponents.end(), component);
+    if (result != mComponents.end()) {
+        return result;
+    }
     return std::find_if(mComponents.begin(), mComponents.end(),
                         [=](const ComponentPtr &c) -> bool { return c->equals(component); });
+}
+
+/**
+ * @brief Find the entity that really holds @p component, when it is encapsulated below @p self.
+ *
+ * Returns the parent of @p component if that parent is a proper descendant of @p self, and @c nullptr
+ * otherwise (including when @p component is a direct child of @p self).
+ */
+static ComponentEntityPtr encapsulatingParent(const ComponentEntity *self, const ComponentPtr &component)
+{
+    if (component == nullptr) {
+        return nullptr;
+    }
+    auto parent = component->parent();
+    if ((parent == nullptr) || (parent.get() == self)) {
+        return nullptr;
+    }
+    auto ancestor = parent->parent();
+    while (ancestor != nullptr) {
+        if (ancestor.get() == self) {
+            return std::dynamic_pointer_cast<ComponentEntity>(parent);
+        }
+        ancestor = ancestor->parent();
+    }
+    return nullptr;
 }
 
 ComponentEntity::ComponentEntityImpl *ComponentEntity::pFunc()
@@ -104,9 +134,16 @@ bool ComponentEntity::removeComponent(size_t index)
 bool ComponentEntity::removeComponent(const ComponentPtr &component, bool searchEncapsulated)
 {
     bool status = false;
+    if (searchEncapsulated) {
+        // The component itself takes precedence over a structurally equal one found earlier.
+        auto holder = encapsulatingParent(this, component);
+        if (holder != nullptr) {
+            return holder->removeComponent(component, false);
+        }
+    }
     auto result = pFunc()->findComponent(component);
     if (result != pFunc()->mComponents.end()) {
-        component->pFunc()->removeParent();
+        (*result)->pFunc()->removeParent();
         pFunc()->mComponents.erase(result);
         status = true;
     } else if (searchEncapsulated) {
@@ -149,6 +186,9 @@ bool ComponentEntity::containsComponent(const std::string &name, bool searchEnca
 bool ComponentEntity::containsComponent(const ComponentPtr &component, bool searchEncapsulated) const
 {
     bool status = false;
+    if (searchEncapsulated && (encapsulatingParent(this, component) != nullptr)) {
+        return true;
+    }
     auto result = pFunc()->findComponent(component);
     if (result != pFunc()->mComponents.end()) {
         status = true;
@@ -247,6 +287,14 @@ bool ComponentEntity::replaceComponent(const std::string &name, const ComponentP
 
 bool ComponentEntity::replaceComponent(const ComponentPtr &oldComponent, const ComponentPtr &newComponent, bool searchEncapsulated)
 {
+    if (searchEncapsulated) {
+        // The component itself takes precedence over a structurally equal one found earlier.
+        auto holder = encapsulatingParent(this, oldComponent);
+        if (holder != nullptr) {
+            return holder->replaceComponent(oldComponent, newComponent, false);
+        }
+    }
+
     bool status = replaceComponent(size_t(pFunc()->findComponent(oldComponent) - pFunc()->mComponents.begin()), newComponent);
 
     if (searchEncapsulated && !status) {
